@@ -1,3 +1,95 @@
-"""C19: replay of CPodesIntegratorRep::stepTo traces through the second model (coq/C19/C19_CPodes.v)."""
+"""C19: replay of CPodesIntegratorRep::stepTo traces through the second model (coq/C19/C19_CPodes.v).
+Oracle := recorded CPodes::step outcomes (hook C19c.step / C19c.root); the model must reproduce status, returned and
+advanced time, communication status, interpolation flag, pendingReturnCode, previousTimeReturned, savedY flag and the
+event window exactly, and must have called CPodes::step with exactly the recorded (t0, tMax, mode)."""
+from vlib import sh
+
+def fx(s):
+    return float.fromhex(s) if s not in ('nan', '-nan', 'inf', '-inf', 'none') else (float('nan') if s == 'none' else float(s))
+def hx(x):
+    if x != x: return 'nan'
+    if x == float('inf'): return 'inf'
+    if x == -float('inf'): return '-inf'
+    return float(x).hex()
+def rec_of(call, tag):
+    return [v for t, v in call['recs'] if t == tag]
+
 def replay_cpodes(sc, drv):
-    return 0, 0, None, set()
+    """returns (n_calls_compared, n_uses, mismatch or None, paths set)"""
+    lines = ['A %s %d %d %s %d' % (hx(sc['final']) if sc['final'] != -1.0 else 'none', sc['allowInterp'], sc['everyStep'],
+                                   str(sc['limit']) if sc['limit'] > 0 else 'none', sc['projInterp'])]
+    expect = []; first = True
+    for e in sc['ev']:
+        if e['type'] == 'reinit':
+            lines.append('J %d %d' % (e['low'], e['term'])); continue
+        ent = rec_of(e, 'C19c.enter')
+        if not ent: return 0, 0, None, set()
+        ent = ent[0]
+        if first:
+            pr = ent[13] if (ent[13] == ent[13] and abs(ent[13]) < 1e300) else 0.0
+            lines.append('Z %d %s %s %d %d %d %s %d 0 0 0 0 0 %s' % (int(ent[0]), hx(ent[2]), hx(ent[1]), int(ent[3]), int(ent[4]),
+                         int(ent[12]), hx(pr), int(ent[14]), hx(sc['final']) if sc['final'] != -1.0 else 'none'))
+            first = False
+        lines.append('Y'); expect.append(('pre', e, ent))
+        outs = []
+        for t, v in e['recs']:
+            if t == 'C19c.step': outs.append([int(v[3]), v[4], 0.0, 0.0])
+            elif t == 'C19c.root' and int(v[3]) == 0 and outs: outs[-1][2], outs[-1][3] = v[0], v[1]
+        for o in outs: lines.append('Q %d %s %s %s' % (o[0], hx(o[1]), hx(o[2]), hx(o[3])))
+        lines.append('X %s %s' % (hx(e['report']), hx(e['sched']))); expect.append(('ret', e, None))
+        if e['throw'] and e['throw'] != 'refused': break
+    rc, out, err = sh([drv], input='\n'.join(lines) + '\n', timeout=300)
+    res = [l for l in out.split('\n') if l.strip()]
+    ncalls = nuses = 0; paths = set()
+    if len(res) != len(expect):
+        return 0, 0, 'model driver produced %d lines for %d commands: %s' % (len(res), len(expect), (out + err)[-300:]), paths
+    for (kind, e, ent), l in zip(expect, res):
+        tk = l.split()
+        where = 'script %d (CPodes) stepTo(%s,%s): ' % (sc['id'], hx(e['report']), hx(e['sched']))
+        if kind == 'pre':
+            m = (int(tk[1]), fx(tk[2]), fx(tk[3]), int(tk[4]), int(tk[5]), int(tk[6]), int(tk[8]))
+            im = (int(ent[0]), ent[1], ent[2], int(ent[3]), int(ent[4]), int(ent[12]), int(ent[14]))
+            if m != im:
+                return ncalls, nuses, where + 'state at entry differs: model (comm,t,adv,interp,startCI,pending,saved)=%s implementation=%s' % (m, im), paths
+            if m[5] != -1 and fx(tk[7]) != ent[13]:
+                return ncalls, nuses, where + 'previousTimeReturned at entry: model %s implementation %s' % (tk[7], hx(ent[13])), paths
+            continue
+        ncalls += 1
+        if e['throw']:
+            if e['throw'] == 'refused':
+                if tk[0] != 'REFUSED': return ncalls, nuses, where + 'implementation refused, model says ' + l[:80], paths
+                paths.add('REFUSED')
+            else:
+                if tk[0] != 'STEPFAILED': return ncalls, nuses, where + 'implementation threw (%s), model says %s' % (e['throw'], l[:80]), paths
+                paths.add('STEPFAILED')
+            continue
+        r = e['ret']; ex = rec_of(e, 'C19c.exit')[-1]
+        if tk[0] != 'OK': return ncalls, nuses, where + 'implementation returned %s, model says %s' % (r['status'], l[:60]), paths
+        mst = tk[1]
+        m = (int(tk[2]), fx(tk[3]), fx(tk[4]), int(tk[5]), int(tk[6]), int(tk[7]), int(tk[9]))
+        im = (int(ex[0]), ex[1], ex[2], int(ex[3]), int(ex[4]), int(ex[5]), int(ex[7]))
+        if mst != r['status']: return ncalls, nuses, where + 'status: implementation %s, model %s' % (r['status'], mst), paths
+        if (m[1], m[2]) != (r['t'], r['adv']):
+            return ncalls, nuses, where + '%s: implementation t=%s adv=%s, model t=%s adv=%s' % (mst, hx(r['t']), hx(r['adv']), hx(m[1]), hx(m[2])), paths
+        if m != im:
+            return ncalls, nuses, where + 'state at exit differs: model (comm,t,adv,interp,startCI,pending,saved)=%s implementation=%s' % (m, im), paths
+        if m[5] != -1 and fx(tk[8]) != ex[6]:
+            return ncalls, nuses, where + 'previousTimeReturned at exit: model %s implementation %s' % (tk[8], hx(ex[6])), paths
+        if mst == 'ReachedEventTrigger' and (fx(tk[10]), fx(tk[11])) != (r['w0'], r['w1']):
+            return ncalls, nuses, where + 'event window: model (%s,%s) implementation (%s,%s)' % (tk[10], tk[11], hx(r['w0']), hx(r['w1'])), paths
+        unused = int(tk[14].split('=')[1]); nu = int(tk[15].split('=')[1])
+        steps = rec_of(e, 'C19c.step')
+        if unused != 0 or nu != len(steps):
+            return ncalls, nuses, where + 'model consumed %d of %d recorded CPodes::step outcomes' % (nu, len(steps)), paths
+        bad = 0
+        for u, v in zip(l.split('|')[1:], steps):
+            ut = u.split()
+            if (fx(ut[0]), fx(ut[1]), int(ut[2])) != (v[0], v[1], int(v[2])):
+                return ncalls, nuses, where + 'CPodes::step arguments: model (t0,tMax,mode)=(%s,%s,%s) implementation (%s,%s,%d)' % (
+                    ut[0], ut[1], ut[2], hx(v[0]), hx(v[1]), int(v[2])), paths
+            if ut[4] != '1':
+                return ncalls, nuses, where + 'recorded CPodes::step outcome violates the assumed contract cp_ok: t0=%s tMax=%s mode=%d tstop=%s res=%d tret=%s' % (
+                    hx(v[0]), hx(v[1]), int(v[2]), ut[3], int(v[3]), hx(v[4])), paths
+            nuses += 1
+        paths.add('CPodes:%s/comm%d/interp%d/pending%d/saved%d/steps%s' % (mst, m[0], m[3], m[5], m[6], '0' if nu == 0 else ('1' if nu == 1 else 'n')))
+    return ncalls, nuses, None, paths
